@@ -121,6 +121,17 @@ func (pc *posChecker) within(what string, child, parent span) {
 	}
 }
 
+// endsAfterLast: whatever here-documents do to the End() of earlier children, a node never ends before the child that
+// comes last in the source ends, and never starts after its first child.
+func (pc *posChecker) endsAfterLast(what string, parent, last span) {
+	if parent.end.IsZero() || last.end.IsZero() {
+		return
+	}
+	if parent.end.Before(last.end) {
+		pc.bad("%s ends at %d:%d, before its last child ends (%d:%d)", what, parent.end.Line(), parent.end.Col(), last.end.Line(), last.end.Col())
+	}
+}
+
 func (pc *posChecker) ordered(what string, prev, cur span) {
 	if prev.pos.IsZero() || cur.pos.IsZero() {
 		return
@@ -169,6 +180,7 @@ func (pc *posChecker) command(what string, c ast.Command, hd *bool) span {
 			}
 			prev = s
 		}
+		pc.endsAfterLast(what+":List", sp, prev)
 		return sp
 	case *ast.AndOrList:
 		sp := pc.node(what+":AndOrList", c, true)
@@ -186,6 +198,7 @@ func (pc *posChecker) command(what string, c ast.Command, hd *bool) span {
 		if c.Sep != "" || !c.SepPos.IsZero() {
 			pc.spells(what+".SepPos", c.SepPos, c.Sep)
 		}
+		pc.endsAfterLast(what+":AndOrList", sp, prev)
 		return sp
 	case *ast.Pipeline:
 		sp := pc.node(what+":Pipeline", c, true)
@@ -197,6 +210,7 @@ func (pc *posChecker) command(what string, c ast.Command, hd *bool) span {
 			pc.ordered(what+".List", prev, s)
 			prev = s
 		}
+		pc.endsAfterLast(what+":Pipeline", sp, prev)
 		return sp
 	case *ast.Cmd:
 		sp := pc.node(what+":Cmd", c, true)
